@@ -1,16 +1,41 @@
-(* C12 theory, part 0: examples (non-vacuity); the general theorems are in Theory1..n *)
-From FB Require Import C12.Model.
+(* C12 theory, part 11: non-vacuity.  A concrete mapping set with a nested class, an inner
+   class whose outer class is absent, a class without target name, a constructor, a parameter
+   with a comment, comments with blank lines, leading spaces and `#`, packages: it satisfies the
+   hypotheses of every theorem, and the round trip is computed on it. *)
+From FB Require Import C12.Model C12.TheoryTree C12.TheoryDet C12.TheoryRT.
 
 Definition ex_classes : list class :=
-  [ mkClass [Some [65]; Some [66]] (Some [104; 105; 10; 10; 32; 35])
-      [mkField [73] [Some [102]; Some [103]] None]
-      [mkMeth [40; 41; 86] [Some [109]; Some s_init] None [mkParam 1 [None; Some [112]] (Some [100])]];
-    mkClass [Some [65; 36; 67]; Some [66; 36; 68]] None [] [];
-    mkClass [Some [88; 36; 89]; None] None [] [] ].
+  [ mkClass [Some [97; 47; 65]; Some [98; 47; 66]] (Some [104; 105; 10; 10; 32; 32; 35; 32; 120])   (* a/A -> b/B, "hi\n\n  # x" *)
+      [mkField [73] [Some [102]; Some [103]] (Some [102; 100]); mkField [74] [Some [102]; None] None]
+      [mkMeth [40; 73; 41; 86] [Some s_init; Some s_init] None
+         [mkParam 1 [Some [113]; Some [112]] (Some [100; 10; 101])];
+       mkMeth [40; 41; 86] [Some [109]; Some [110]] (Some [35]) []];
+    mkClass [Some [97; 47; 65; 36; 67]; Some [98; 47; 66; 36; 68]] None [] [];                        (* a/A$C -> b/B$D *)
+    mkClass [Some [97; 47; 65; 36; 67; 36; 49]; None] (Some []) [] [];                               (* a/A$C$1, no target *)
+    mkClass [Some [88; 36; 89]; Some [90; 36; 87]] None [] [] ].                                     (* X$Y -> Z$W, X absent *)
 
-Example ex_write_read :
-  match write_all ex_classes with
-  | Ok t => match read_all t with Ok r => length r = 3%nat | Err => False end
-  | Err => False
-  end.
-Proof. vm_compute. reflexivity. Qed.
+Definition nonvacuous : Prop :=
+  enigma_okb ex_classes = true /\ dir_okb ex_classes = true /\ keys_ok ex_classes
+  /\ (match write_all ex_classes with
+      | Ok t => match read_all t with
+                | Ok r => equivb (mkMappings [] None r) (mkMappings [] None (enigma_norm ex_classes)) = true
+                          /\ enigma_norm ex_classes <> ex_classes
+                | Err => False
+                end
+      | Err => False
+      end)
+  /\ chain_depth ex_classes [97; 47; 65; 36; 67; 36; 49] = 2%nat
+  /\ chain_depth ex_classes [88; 36; 89] = 0%nat.
+
+Lemma nodup_dec_str (l : list (list N * list N)) : nodupb key2_eqb l = true -> NoDup l.
+Proof. apply TheoryClass.nodupb_key2_NoDup. Qed.
+
+Lemma nonvacuous_holds : nonvacuous.
+Proof.
+  unfold nonvacuous. split; [vm_compute; reflexivity|]. split; [vm_compute; reflexivity|]. split.
+  - split.
+    + apply nodupb_str_NoDup. vm_compute. reflexivity.
+    + repeat constructor; cbn; try (intros [H|H]; [discriminate|contradiction]); auto;
+        try (intros [H|[]]; discriminate).
+  - split; [|split; reflexivity]. vm_compute. split; [reflexivity|discriminate].
+Qed.
